@@ -3,6 +3,7 @@ package main
 import (
 	"fmt"
 	"go/types"
+	"strings"
 
 	"golang.org/x/tools/go/ssa"
 )
@@ -51,5 +52,55 @@ func (fr *Frame) goRequires(in *ssa.Go, st *State, pc Term) {
 	site := fmt.Sprintf("go:%s#%d", shortCallee(funcName(callee)), fr.callOrd["go:"+funcName(callee)])
 	for _, r := range fc.Requires {
 		vc.obligeClause("pre", r.Label, site+":"+labelOr(r.Label, "requires"), pc, env, r)
+	}
+}
+
+// goEnsures assumes the postconditions of the function started by a go
+// statement, after the captured variables and the heaps have been havoced.
+// govc executes the function sequentially: the values a goroutine leaves in
+// the variables it shares with its parent are modelled as written at the
+// spawn site, so what is known about them is what the goroutine's own
+// (verified) contract guarantees on return. The parent must join the
+// goroutine before reading them (sync.WaitGroup.Wait in the code under
+// verification); that join is not modelled and is listed as an assumption.
+// Clauses mentioning result values or old() are skipped.
+func (fr *Frame) goEnsures(in *ssa.Go, st, pre *State, pc Term) {
+	vc := fr.vc
+	c := &in.Call
+	ci, ok := fr.closures[c.Value]
+	if !ok {
+		return
+	}
+	callee := ci.fn
+	fc := vc.specs.contractFor(funcName(callee))
+	if fc == nil || len(fc.Ensures) == 0 {
+		return
+	}
+	env := &Env{vc: vc, vars: map[string]TV{}, st: st, old: pre, pkgKey: fc.Pkg, fr: fr}
+	if callee.Pkg != nil {
+		env.pkg = callee.Pkg.Pkg
+	} else if fr.fn.Pkg != nil {
+		env.pkg = fr.fn.Pkg.Pkg
+	}
+	for i, p := range callee.Params {
+		if i < len(c.Args) {
+			env.vars[p.Name()] = TV{fr.val(c.Args[i]), c.Args[i].Type()}
+		}
+	}
+	used := false
+	for _, e := range fc.Ensures {
+		if strings.Contains(e.Src, "old(") || strings.Contains(e.Src, "result") {
+			continue
+		}
+		// clauses about names that exist only inside the spawned function
+		// (its own "let" names) say nothing to the parent
+		if _, err := env.evalBool(e.E); err != nil {
+			continue
+		}
+		vc.assumeClause(pc, env, e)
+		used = true
+	}
+	if used {
+		vc.assumes["go statement in "+vc.fname+": the variables shared with "+shortCallee(funcName(callee))+" are read only after it has returned (join by sync.WaitGroup.Wait is not modelled); their values are those its verified postconditions describe"] = true
 	}
 }
